@@ -180,9 +180,16 @@ def replay(pyhf, backend, precision, chunk, seed, ainv=None):
                   try:
                       kw, _ = shim(pyhf.infer.mle.twice_nll, data, model, pars, bounds, fixed_vals, do_grad=True, do_stitch=do_stitch)
                       x0 = [pars[i] for i in free] if do_stitch else list(pars)
-                      val, grad = kw["func"](tl.astensor(x0))
+                      xt = tl.astensor(x0)
+                      val, grad = kw["func"](xt)
                       grad = [float(g) for g in tl.tolist(grad)]
                       val = float(val)
+                      # the SAME tensor object handed in again (what an optimiser that reuses its buffer does): same answer
+                      val_b, grad_b = kw["func"](xt)
+                      grad_b = [float(g) for g in tl.tolist(grad_b)]
+                      if grad_b != grad or float(val_b) != val:
+                          add("value-and-gradient function gives another answer when called again with the same tensor object",
+                              {"case": slim, "fixed": fixed_idx, "stitch": do_stitch, "first": grad, "second": grad_b}, tags + ["gradient", "repeat"])
                       kw2, _ = shim(pyhf.infer.mle.twice_nll, data, model, pars, bounds, fixed_vals, do_grad=False, do_stitch=do_stitch)
                       v2 = kw2["func"](tl.astensor(x0))
                       try:
